@@ -65,13 +65,44 @@ type viewTrack struct {
 	overwritten       map[string]bool // values replaced in place by a delivered PUT of the same key
 	reloadOverwritten map[string]bool // values replaced by a snapshot that changed the key's value
 	reloadChanged     bool
+	reloadNew         map[string]bool // values a key got in a snapshot that changed the key's value
 	snapAmbig         map[string]bool // values held by >= 2 keys in a served snapshot
 	snapshots         int
 	dupWatch          bool // two watch streams on the range were open at the same time
+	deliveries        int
+	lastDelivery      time.Time
+	valsOfKey         map[string]map[string]bool // every value ever delivered (event or snapshot) per key
+}
+
+// multiValued: some key was announced with v and, at another time, with a different value.
+func (v *viewTrack) multiValued(val string) bool {
+	for _, vs := range v.valsOfKey {
+		if vs[val] && len(vs) >= 2 {
+			return true
+		}
+	}
+	return false
+}
+
+// movedTo: some key that was announced with another value before is now announced with val.
+func (v *viewTrack) movedTo(live map[string]string, val string) bool {
+	for k, cur := range live {
+		if cur == val && len(v.valsOfKey[k]) >= 2 {
+			return true
+		}
+	}
+	return false
+}
+
+func (v *viewTrack) noteVal(k, val string) {
+	if v.valsOfKey[k] == nil {
+		v.valsOfKey[k] = map[string]bool{}
+	}
+	v.valsOfKey[k][val] = true
 }
 
 func newViewTrack() *viewTrack {
-	return &viewTrack{cur: map[string]string{}, overwritten: map[string]bool{}, reloadOverwritten: map[string]bool{}, snapAmbig: map[string]bool{}}
+	return &viewTrack{cur: map[string]string{}, overwritten: map[string]bool{}, reloadOverwritten: map[string]bool{}, snapAmbig: map[string]bool{}, reloadNew: map[string]bool{}, valsOfKey: map[string]map[string]bool{}}
 }
 
 type store struct {
@@ -315,9 +346,11 @@ func (s *store) noteSnapshot(rangeKey string, kvs []*mvccpb.KeyValue) {
 		}
 	}
 	for k, val := range n {
+		v.noteVal(k, val)
 		if old, ok := v.cur[k]; ok && old != val {
 			v.reloadChanged = true
 			v.reloadOverwritten[old] = true
+			v.reloadNew[val] = true
 			s.r.Probe("reload-with-changed-value")
 		}
 	}
@@ -326,9 +359,12 @@ func (s *store) noteSnapshot(rangeKey string, kvs []*mvccpb.KeyValue) {
 
 func (s *store) noteDelivered(rangeKey string, evs []*clientv3.Event) {
 	v := s.view(rangeKey)
+	v.deliveries++
+	v.lastDelivery = time.Now()
 	for _, ev := range evs {
 		k := string(ev.Kv.Key)
 		if ev.Type == clientv3.EventTypePut {
+			v.noteVal(k, string(ev.Kv.Value))
 			if old, ok := v.cur[k]; ok && old != string(ev.Kv.Value) {
 				v.overwritten[old] = true
 				s.r.Probe("update-in-place-delivered")
@@ -353,6 +389,7 @@ type watcher struct {
 	wake     chan struct{}
 	done     bool
 	sent     int
+	inSend   bool // parked in send: nobody is receiving right now
 	breakNow int // fault requested by the workload: 1 cancel, 2 cancel+compacted, 3 close
 }
 
@@ -376,13 +413,16 @@ func (w *watcher) idle() {
 
 // send delivers one response; false when the watch context ended first.
 func (w *watcher) send(resp clientv3.WatchResponse) bool {
+	w.inSend = true
 	tk := simrt.Pre("simetcd.watch.send")
 	select {
 	case w.ch <- resp:
 		simrt.Post(tk)
+		w.inSend = false
 		return true
 	case <-w.ctx.Done():
 		simrt.Post(tk)
+		w.inSend = false
 		return false
 	}
 }
